@@ -275,6 +275,7 @@ package util
 //@   ensures[C18.gate]     started[executable] != old(started)[executable] ==> executable in resolveOK && resolvedPath[executable] in statOK && permOK(resolvedPath[executable])
 //@   ensures[C18.refuse]   !(executable in resolveOK && resolvedPath[executable] in statOK && permOK(resolvedPath[executable])) ==> err != nil && started == old(started)
 //@   ensures[C19.shape]    err != nil ==> out == ""
+//@   ensures[C19.once]     forall e string :: started[e] == old(started)[e] || (e == executable && started[e] == old(started)[e] + 1)
 //@   modifies started, procWorld
 
 // ---- smoothing (C08, C10) ---------------------------------------------------------------------------
